@@ -39,3 +39,18 @@ func isDigit(c byte) bool { return '0' <= c && c <= '9' }
 func within(f PField, hi int) bool { return int(f.Offs)+int(f.Len) <= hi }
 
 func fend(f PField) int { return int(f.Offs) + int(f.Len) }
+
+// state predicates: "a state the parser itself could have left behind at offset i"
+
+func csOK(p *PCSeqBody, i int) bool {
+	return p.state <= csFIN && 0 <= p.soffs && p.soffs <= i &&
+		within(p.CSeq, i) && within(p.Method, i) && within(p.V, i)
+}
+
+func clOK(p *PUIntBody, i int) bool {
+	return p.state <= clFIN && 0 <= p.soffs && p.soffs <= i && within(p.SVal, i)
+}
+
+func ciOK(p *PCallIDBody, i int) bool {
+	return p.state <= ciFIN && 0 <= p.soffs && p.soffs <= i && within(p.CallID, i)
+}
